@@ -110,7 +110,8 @@ def ohe_rules(repo):
     ok = bool(chk) and bool(dflt) and chk[0].lineno < dflt[0].lineno
     out.append((holds if ok else violation)("R-TABLE", w, role, "overlap check %s" % ("precedes the table" if ok else "missing or late"), chk[0] if chk else w.node))
     role = "the encoding has one row per input character and one column per alphabet character, returned as (alphabet, length)"
-    ok = "n, m = (len(sequence), len(alphabet))" in src and "one_hot_encoding = numpy.zeros((n, m), dtype=numpy.int8)" in src
+    ok = ("n, m = (len(sequence), len(alphabet))" in src or ("n = len(sequence)" in src and "m = len(alphabet)" in src)) and \
+        "one_hot_encoding = numpy.zeros((n, m), dtype=numpy.int8)" in src
     ret = [s for s in walk_no_nested(w.node) if isinstance(s, ast.Return)]
     ok = ok and bool(ret) and unparse(ret[-1].value) == "torch.from_numpy(one_hot_encoding).type(dtype).T"
     out.append((holds if ok else unrecognised)("R-TABLE", w, role, unparse(ret[-1].value) if ret else "?", ret[-1] if ret else w.node, nontrivial=False))
